@@ -123,9 +123,9 @@ S(id="HT.hpn.native", props=["C19"], spec="native/ht_prime.c", mode="N", link=["
 
 S(id="X.diff.native", props=["C16"], spec="native/cxx_diff.cpp", mode="N", cc="clang++", link_verif=["native/cxx_cside.c"],
   link=["allocate.c", "hashtab.c", "objstack.c", "vlobject.c", "hashtab.cpp", "objstack.cpp", "vlobject.cpp", "yaep.cpp"], harness="main", timeout=3000,
-  params={"quick": {"INLEN": 3, "LONGLEN": 301}, "thorough": {"INLEN": 4, "LONGLEN": 2001}},
+  params={"quick": {"INLEN": 3, "LONGLEN": 301, "WIDEN": 300}, "thorough": {"INLEN": 4, "LONGLEN": 2001, "WIDEN": 2100}},
   bound="both real libraries in one program: three grammars x 100 configurations (lookahead -1..3, one parse, cost, recovery - only together with one parse and no cost flag: F38 -, own allocator) x every input of <= 3 (thorough 4) tokens; 21 rejected / odd descriptions; "
-        "10 callback grammars (9 with one defect); 16 two-object histories x 6 configurations; inputs of 301 (thorough 2001) tokens so that the containers grow",
+        "10 callback grammars (9 with one defect); 16 two-object histories x 6 configurations; inputs of 301 (thorough 2001) tokens so that the containers grow; 17 sizes x 3 grammar shapes (n alternatives, n-symbol right-hand sides, n-character names, n <= 700, thorough 2100) x 2 configurations, each object redefined three times",
   functions=["yaep::yaep", "yaep::~yaep", "yaep::error_code", "yaep::error_message", "yaep::read_grammar", "yaep::parse_grammar", "yaep::set_*", "yaep::parse", "yaep::free_tree",
              "yaep.c compiled as C++ on hash_table / os / vlo (macro layer of yaep.cpp)"],
   what="class yaep (libyaep++) and the C functions (libyaep) give the same return codes, error codes and messages, syntax_error callbacks, ambiguity flags, trees (types, names, costs, codes, attributes, sharing) "
@@ -146,6 +146,13 @@ for _m, _cf, _rec in [("ctor", "yaep_create_grammar", "rec_create"), ("dtor", "y
       replace=["%s/%s" % (c, r) for c, r in XX_REC],
       functions=["yaep::%s (yaep.cpp, extracted to C by staging rule R9; body verbatim)" % {"ctor": "yaep", "dtor": "~yaep"}.get(_m, _m)],
       what="the member calls %s, and no other function of the C interface, exactly once, on the wrapped grammar object, with its own arguments in order; returns its result; assigns nothing else" % _cf)
+
+S(id="E.wide.native", props=["C12", "C14"], spec="native/wide_enum.c", mode="N", link=["allocate.c", "hashtab.c", "objstack.c", "vlobject.c", "yaep.c"], harness="main", timeout=3000,
+  params={"quick": {"WIDE_MAX": 300}, "thorough": {"WIDE_MAX": 1200}},
+  bound="24 sizes n in 1..300 (thorough ..1200) around the growth points of the containers x 3 grammar shapes x lookahead 0..2, each with four redefinitions of the same object",
+  functions=["yaep_parse_grammar", "yaep_read_grammar", "yaep_parse", "core_symb_vect_new", "vlo_array_expand", "rule_new_symb_add", "yylex", "yaep_empty_grammar"],
+  what="grammars that make the per-grammar and per-set containers grow (n alternatives in one set, right-hand sides of n symbols, names of n characters): defined, parsed, redefined on the same "
+       "object and parsed again without any memory error (ASan's realloc always moves), with the expected trees")
 
 # ---------------- C15 / C14 / C17: yaep_parse ----------------
 PARSE_REPL = ["verif_error_exit/err_c", "tok_init/tok_init_c", "read_toks/read_toks_c", "yaep_parse_init/parse_init_c", "build_pl/build_pl_c",
